@@ -367,7 +367,11 @@ class Interp:
     def call(self, f, args, this=None):
         env = {}
         for p_, a in zip(f.params, args):
-            env[p_['d']] = wrap(a, p_.get('ct'))
+            ct = (p_.get('ct') or '')
+            if ct.endswith('&') and not ct.startswith('const ') and isinstance(a, P) and isinstance(self.mem.get(a.r), list) and ct.rstrip('& ').strip() in WIDTH:
+                env[p_['d']] = ('ref', a)       # T &x with T a scalar: reads and writes go to the caller's cell
+            else:
+                env[p_['d']] = wrap(a, ct)
         saved = self.this
         if this is not None:
             self.this = this
@@ -614,6 +618,9 @@ class Interp:
         if k == 'DeclRefExpr':
             if st.get('gl') and st['d'] not in env and st.get('q') in self.globals:
                 return ('global', st['q'])
+            v = env.get(st.get('d'))
+            if isinstance(v, tuple) and len(v) == 2 and v[0] == 'ref':
+                return ('mem', v[1])            # a reference parameter bound to a scalar cell of the caller
             return ('var', st['d'])
         if k == 'MemberExpr' and st.get('mk') == 'static' and st.get('q') in self.globals:
             return ('global', st['q'])
@@ -761,7 +768,12 @@ class Interp:
         if k == 'DeclRefExpr':
             if st.get('dk') in ('Var', 'ParmVar'):
                 if st['d'] in env:
-                    return env[st['d']]
+                    v = env[st['d']]
+                    if isinstance(v, tuple) and len(v) == 2 and v[0] == 'ref':
+                        return self.load(f, st, v[1])
+                    return v
+                if 'cv' in st:
+                    return st['cv']         # a constant the compiler has folded (constexpr / const integral global)
                 if ('g:' + st['n']) in self.mem:
                     return P('g:' + st['n'], 0)
                 if (st.get('q') or '').startswith('std::placeholders::_'):
@@ -1021,6 +1033,8 @@ def _vec(it, f, st):
     v = it.cur_obj
     if isinstance(v, dict) and v.get('__map__'):
         return v
+    if isinstance(v, P) and it.cstr(v) is not None:
+        return [ord(c) for c in it.cstr(v)]         # a std::string read as a sequence of characters
     if not isinstance(v, list):
         raise AnalysisBroken('%s: container operation on something the replay does not hold as a sequence (%s)' % (f.short, f.loc(st['i'])))
     return v
